@@ -73,7 +73,9 @@ def run_history(h, ctx, farmer=None):
                         if op.get('cases'):
                             if sw['combo_args']:      # parsed form: sow_cases does not parse its sub-grid
                                 kw['combos'] = tuple((a, [sw['values'][a][r] for r in sw['combo_order'][a]]) for a in sw['combo_args'])
-                            crop.sow_cases(sw['case_args'], sweeps.py_cases(sw, op.get('spelling', 'tuple')), verbosity=0, **kw)
+                            # one case argument may be named by a bare string (every second such sow does)
+                            fa = sw['case_args'][0] if len(sw['case_args']) == 1 and len(sw['rows']) % 2 else sw['case_args']
+                            crop.sow_cases(fa, sweeps.py_cases(sw, op.get('spelling', 'tuple')), verbosity=0, **kw)
                         else:
                             crop.sow_combos(sweeps.py_combos(sw, 'dict'), cases=sweeps.py_cases(sw, 'dict'),
                                             constants=sw['consts'] or None, shuffle=(op.get('shuffle') or False),
